@@ -240,54 +240,95 @@ func ruleRevertController(c *core.Ctx) {
 			c.Fail("DOM/revert", fmt.Sprintf("%s:success-exit#%d-without-commit", key, i), pos(c, d.Decl), "a success exit of revertTransaction is reachable without committing the reverse transaction")
 		}
 	}
-	// reverse built from original.Reverse()
-	built := false
-	var revVar string
-	ast.Inspect(d.Decl.Body, func(n ast.Node) bool {
-		if as, ok := n.(*ast.AssignStmt); ok && len(as.Rhs) == 1 && as.Tok == token.DEFINE {
-			if call, ok := as.Rhs[0].(*ast.CallExpr); ok {
-				if f := astx.Callee(info, call); f != nil && f.Name() == "Reverse" && astx.SelectorPath(recvExpr(call)) == "originalTransaction" {
-					built = true
-					revVar = astx.SelectorPath(as.Lhs[0])
-				}
+	// the reverse is built from the original, wherever the building lives (Import itself or a helper)
+	envs := scopeEnvs(c, d)
+	root := envs[0]
+	orig := ""
+	if objs := resultObjs(info, d.Decl.Body, rev[0]); len(objs) > 0 && objs[0] != nil {
+		for id, o := range info.Defs {
+			if o == objs[0] {
+				orig = root.origin(id)
 			}
 		}
-		return true
-	})
-	c.Check(built && len(com[0].Args) == 2 && strings.TrimPrefix(astx.ExprString(com[0].Args[1]), "&") == revVar, "DOM/revert", key+":commits-the-reverse", pos(c, com[0]), "CommitTransaction(&originalTransaction.Reverse())", "the committed transaction is not the Reverse() of the original")
-	// timestamp selection
-	tsOK := 0
-	ast.Inspect(d.Decl.Body, func(n ast.Node) bool {
-		is, ok := n.(*ast.IfStmt)
-		if !ok || !strings.HasSuffix(astx.SelectorPath(is.Cond), ".AtEffectiveDate") || is.Else == nil {
-			return true
-		}
-		arg := func(b ast.Node) string {
-			out := ""
-			for _, call := range callsTo(info, b, named("WithTimestamp")) {
-				if len(call.Args) == 1 {
-					out = strings.TrimPrefix(astx.ExprString(call.Args[0]), "*")
+		if orig == "" {
+			for id, o := range info.Uses {
+				if o == objs[0] {
+					orig = root.origin(id)
+					break
 				}
 			}
-			return out
-		}
-		if arg(is.Body) == "originalTransaction.Timestamp" {
-			tsOK++
-		}
-		if arg(is.Else) == "originalTransaction.RevertedAt" {
-			tsOK++
-		}
-		return true
-	})
-	c.Check(tsOK == 2, "DOM/revert", key+":timestamp", pos(c, d.Decl), "AtEffectiveDate ? original.Timestamp : *original.RevertedAt", "the reverse transaction's timestamp must be the original's timestamp under AtEffectiveDate and the revert time otherwise")
-	// metadata mark
-	mark := false
-	for _, call := range callsTo(info, d.Decl.Body, named("MarkReverts")) {
-		if len(call.Args) == 2 && strings.HasSuffix(astx.SelectorPath(call.Args[0]), ".Input.Metadata") && astx.ExprString(call.Args[1]) == "*originalTransaction.ID" {
-			mark = true
 		}
 	}
-	c.Check(mark, "DOM/revert", key+":metadata-mark", pos(c, d.Decl), "Metadata = MarkReverts(input metadata, original id)", "the reverse transaction is not marked with MarkReverts(parameters.Input.Metadata, *originalTransaction.ID)")
+	if orig == "" || strings.HasPrefix(orig, "?") || len(com[0].Args) != 2 {
+		c.Unrecognised("DOM/revert", key+":commits-the-reverse", pos(c, com[0]), "the original transaction returned by RevertTransaction was not identified")
+		return
+	}
+	committed := root.origin(com[0].Args[1])
+	switch {
+	case committed == orig+".Reverse()":
+		c.Pass("DOM/revert", key+":commits-the-reverse", pos(c, com[0]), "CommitTransaction(&originalTransaction.Reverse())")
+	case strings.HasPrefix(committed, "?"):
+		c.Unrecognised("DOM/revert", key+":commits-the-reverse", pos(c, com[0]), "the committed value is built in a way the rule does not read: "+committed)
+	default:
+		c.Fail("DOM/revert", key+":commits-the-reverse", pos(c, com[0]), "the committed transaction is not the Reverse() of the original (it is "+committed+")")
+	}
+	// timestamp selection
+	var tsBad []string
+	tsSeen := map[bool]bool{}
+	nTS := 0
+	for _, e := range envs {
+		for _, call := range e.calls(named("WithTimestamp")) {
+			if len(call.Args) != 1 {
+				continue
+			}
+			nTS++
+			arg := e.origin(call.Args[0])
+			for _, ft := range e.facts(call.Pos()) {
+				if !strings.HasSuffix(astx.SelectorPath(ft.Cond), ".AtEffectiveDate") && !strings.HasSuffix(astx.SelectorPath(ft.Cond), "AtEffectiveDate") {
+					continue
+				}
+				want := orig + ".RevertedAt"
+				if ft.Positive {
+					want = orig + ".Timestamp"
+				}
+				tsSeen[ft.Positive] = true
+				if arg != want {
+					tsBad = append(tsBad, fmt.Sprintf("AtEffectiveDate=%v -> %s", ft.Positive, arg))
+				}
+			}
+		}
+	}
+	tsMsg := "the reverse transaction's timestamp must be the original's timestamp under AtEffectiveDate and the revert time otherwise"
+	switch {
+	case len(tsBad) > 0:
+		c.Fail("DOM/revert", key+":timestamp", pos(c, d.Decl), tsMsg+fmt.Sprintf(" (%v)", tsBad))
+	case tsSeen[true] && tsSeen[false]:
+		c.Pass("DOM/revert", key+":timestamp", pos(c, d.Decl), "AtEffectiveDate ? original.Timestamp : *original.RevertedAt")
+	case nTS == 0:
+		c.Fail("DOM/revert", key+":timestamp", pos(c, d.Decl), tsMsg+" (no WithTimestamp call)")
+	default:
+		c.Unrecognised("DOM/revert", key+":timestamp", pos(c, d.Decl), "the timestamp choice is not written as two WithTimestamp calls on the sides of an AtEffectiveDate test")
+	}
+	// metadata mark
+	mark, nMark, markGot := false, 0, ""
+	for _, e := range envs {
+		for _, call := range e.calls(named("MarkReverts")) {
+			if len(call.Args) != 2 {
+				continue
+			}
+			nMark++
+			a0, a1 := e.origin(call.Args[0]), e.origin(call.Args[1])
+			markGot = a0 + ", " + a1
+			if strings.HasSuffix(a0, ".Input.Metadata") && a1 == orig+".ID" {
+				mark = true
+			}
+		}
+	}
+	if !mark && nMark > 0 && strings.Contains(markGot, "?") {
+		c.Unrecognised("DOM/revert", key+":metadata-mark", pos(c, d.Decl), "MarkReverts arguments not read: "+markGot)
+	} else {
+		c.Check(mark, "DOM/revert", key+":metadata-mark", pos(c, d.Decl), "Metadata = MarkReverts(input metadata, original id)", "the reverse transaction is not marked with MarkReverts(parameters.Input.Metadata, *originalTransaction.ID) (got "+markGot+")")
+	}
 }
 
 func rulePostingsReverse(c *core.Ctx) {
@@ -297,56 +338,228 @@ func rulePostingsReverse(c *core.Ctx) {
 	}
 	info := d.Pkg.TypesInfo
 	key := declKey(d)
-	recv := d.Decl.Recv.List[0].Names[0].Name
-	cpVar := ""
-	made, copied := false, false
-	swapSides, swapOrder := false, false
-	var sideLoopAll, orderLoopHalf bool
+	if len(d.Decl.Recv.List[0].Names) == 0 {
+		c.Unrecognised("FLOW/postings-reverse", key+":on-copy", pos(c, d.Decl), "unnamed receiver")
+		return
+	}
+	recvObj := info.ObjectOf(d.Decl.Recv.List[0].Names[0])
+	// aliases of the receiver's backing array: the receiver, and locals defined as it or a slice of it
+	alias := map[types.Object]bool{recvObj: true}
+	for changed := true; changed; {
+		changed = false
+		ast.Inspect(d.Decl.Body, func(n ast.Node) bool {
+			as, ok := n.(*ast.AssignStmt)
+			if !ok || len(as.Lhs) != len(as.Rhs) {
+				return true
+			}
+			for i, l := range as.Lhs {
+				id, ok := l.(*ast.Ident)
+				if !ok {
+					continue
+				}
+				r := ast.Unparen(as.Rhs[i])
+				if se, ok := r.(*ast.SliceExpr); ok {
+					r = ast.Unparen(se.X)
+				}
+				if rid, ok := r.(*ast.Ident); ok && alias[info.ObjectOf(rid)] && !alias[info.ObjectOf(id)] {
+					alias[info.ObjectOf(id)] = true
+					changed = true
+				}
+			}
+			return true
+		})
+	}
+	rootObj := func(e ast.Expr) (types.Object, bool) {
+		indexed := false
+		for {
+			switch v := ast.Unparen(e).(type) {
+			case *ast.IndexExpr:
+				indexed = true
+				e = v.X
+			case *ast.SelectorExpr:
+				e = v.X
+			case *ast.Ident:
+				return info.ObjectOf(v), indexed
+			default:
+				return nil, false
+			}
+		}
+	}
+	var mutation ast.Node
+	sideRefs, swaps, badSide := 0, 0, ast.Node(nil)
+	var swapNodes []ast.Node
+	hasSub, hasDec, helperCall, libReverse := false, false, false, false
+	var orderSwap *ast.AssignStmt
+	var mirrored []*ast.AssignStmt
+	ix := index(c)
 	ast.Inspect(d.Decl.Body, func(n ast.Node) bool {
 		switch x := n.(type) {
-		case *ast.AssignStmt:
-			if x.Tok == token.DEFINE && len(x.Rhs) == 1 {
-				if call, ok := x.Rhs[0].(*ast.CallExpr); ok {
-					if id, ok := call.Fun.(*ast.Ident); ok && id.Name == "make" {
-						made = true
-						cpVar = astx.SelectorPath(x.Lhs[0])
-					}
-				}
+		case *ast.SelectorExpr:
+			if x.Sel.Name == "Source" || x.Sel.Name == "Destination" {
+				sideRefs++
 			}
-			if len(x.Lhs) == 2 && len(x.Rhs) == 2 && x.Tok == token.ASSIGN {
-				l0, l1 := astx.ExprString(x.Lhs[0]), astx.ExprString(x.Lhs[1])
-				r0, r1 := astx.ExprString(x.Rhs[0]), astx.ExprString(x.Rhs[1])
-				if l0 == r1 && l1 == r0 && l0 != l1 {
-					if strings.HasSuffix(l0, ".Source") && strings.HasSuffix(l1, ".Destination") || strings.HasSuffix(l0, ".Destination") && strings.HasSuffix(l1, ".Source") {
-						if strings.HasPrefix(l0, cpVar+"[") {
-							swapSides = true
-						}
-					} else if strings.HasPrefix(l0, cpVar+"[") && strings.HasPrefix(l1, cpVar+"[") {
-						swapOrder = true
-					}
-				}
+		case *ast.BinaryExpr:
+			if x.Op == token.SUB {
+				hasSub = true
+			}
+		case *ast.IncDecStmt:
+			if x.Tok == token.DEC {
+				hasDec = true
 			}
 		case *ast.CallExpr:
-			if id, ok := x.Fun.(*ast.Ident); ok && id.Name == "copy" && len(x.Args) == 2 && astx.SelectorPath(x.Args[0]) == cpVar && astx.SelectorPath(x.Args[1]) == recv {
-				copied = true
+			if f := astx.Callee(info, x); f != nil {
+				if f.Pkg() != nil && f.Pkg().Path() == "slices" && f.Name() == "Reverse" {
+					libReverse = true
+				} else if dd := ix.Decls[f]; dd != nil && dd.Obj != d.Obj {
+					helperCall = true
+				}
 			}
-		case *ast.RangeStmt:
-			if astx.SelectorPath(x.X) == recv || astx.SelectorPath(x.X) == cpVar {
-				sideLoopAll = true
+		case *ast.AssignStmt:
+			for _, l := range x.Lhs {
+				if o, indexed := rootObj(l); o != nil && alias[o] && indexed {
+					mutation = x
+				}
 			}
-		case *ast.ForStmt:
-			if be, ok := x.Cond.(*ast.BinaryExpr); ok && be.Op == token.LSS {
-				if strings.HasSuffix(astx.ExprString(be.Y), "/ 2") {
-					orderLoopHalf = true
+			if x.Tok == token.SUB_ASSIGN {
+				hasDec = true
+			}
+			// Source/Destination writes must be swaps
+			for i, l := range x.Lhs {
+				se, ok := ast.Unparen(l).(*ast.SelectorExpr)
+				if !ok || (se.Sel.Name != "Source" && se.Sel.Name != "Destination") {
+					continue
+				}
+				other := map[string]string{"Source": "Destination", "Destination": "Source"}[se.Sel.Name]
+				okSwap := false
+				if len(x.Lhs) == len(x.Rhs) {
+					if rs, ok := ast.Unparen(x.Rhs[i]).(*ast.SelectorExpr); ok && rs.Sel.Name == other {
+						okSwap = true
+					}
+				}
+				if okSwap {
+					swaps++
+					swapNodes = append(swapNodes, x)
+				} else {
+					badSide = x
+				}
+			}
+			// element swap x[i], x[j] = x[j], x[i]
+			if len(x.Lhs) == 2 && len(x.Rhs) == 2 {
+				l0, l1 := nospace(types.ExprString(x.Lhs[0])), nospace(types.ExprString(x.Lhs[1]))
+				r0, r1 := nospace(types.ExprString(x.Rhs[0])), nospace(types.ExprString(x.Rhs[1]))
+				_, i0 := ast.Unparen(x.Lhs[0]).(*ast.IndexExpr)
+				_, i1 := ast.Unparen(x.Lhs[1]).(*ast.IndexExpr)
+				if i0 && i1 && l0 == r1 && l1 == r0 && l0 != l1 {
+					orderSwap = x
+				}
+			}
+			// mirrored write out[<… - i>] = v
+			if len(x.Lhs) == 1 {
+				if ie, ok := ast.Unparen(x.Lhs[0]).(*ast.IndexExpr); ok {
+					if be, ok := ast.Unparen(ie.Index).(*ast.BinaryExpr); ok && be.Op == token.SUB {
+						mirrored = append(mirrored, x)
+					}
+				}
+			}
+		case *ast.CompositeLit:
+			// Posting{Source: v.Destination, Destination: v.Source, …}
+			for _, el := range x.Elts {
+				kv, ok := el.(*ast.KeyValueExpr)
+				if !ok {
+					continue
+				}
+				k, ok := kv.Key.(*ast.Ident)
+				if !ok || (k.Name != "Source" && k.Name != "Destination") {
+					continue
+				}
+				other := map[string]string{"Source": "Destination", "Destination": "Source"}[k.Name]
+				if rs, ok := ast.Unparen(kv.Value).(*ast.SelectorExpr); ok && rs.Sel.Name == other {
+					swaps++
+					swapNodes = append(swapNodes, x)
+				} else {
+					badSide = x
 				}
 			}
 		}
 		return true
 	})
-	_ = info
-	c.Check(made && copied, "FLOW/postings-reverse", key+":on-copy", pos(c, d.Decl), "works on make+copy of the receiver", "Postings.Reverse mutates its receiver: the original transaction's postings would be rewritten")
-	c.Check(swapSides && sideLoopAll, "FLOW/postings-reverse", key+":swaps-sides", pos(c, d.Decl), "every element: Source <-> Destination", "Postings.Reverse does not swap source and destination of every posting")
-	c.Check(swapOrder && orderLoopHalf, "FLOW/postings-reverse", key+":reverses-order", pos(c, d.Decl), "element order reversed", "Postings.Reverse does not reverse the order of the postings")
+	// the loop around n: "all" when it visits every element, "half" when bounded by len/2
+	loopKind := func(n ast.Node) string {
+		kind := ""
+		ast.Inspect(d.Decl.Body, func(l ast.Node) bool {
+			switch x := l.(type) {
+			case *ast.RangeStmt:
+				if x.Body.Pos() <= n.Pos() && n.End() <= x.Body.End() {
+					kind = "all"
+				}
+			case *ast.ForStmt:
+				if x.Body.Pos() <= n.Pos() && n.End() <= x.Body.End() {
+					kind = "?"
+					if be, ok := x.Cond.(*ast.BinaryExpr); ok {
+						y := nospace(types.ExprString(be.Y))
+						switch {
+						case strings.HasSuffix(y, "/2"):
+							kind = "half"
+						case strings.HasPrefix(y, "len(") && strings.HasSuffix(y, ")") && be.Op == token.LSS:
+							kind = "all"
+						case be.Op == token.GEQ && y == "0":
+							kind = "all"
+						}
+					}
+				}
+			}
+			return true
+		})
+		return kind
+	}
+	if mutation != nil {
+		c.Fail("FLOW/postings-reverse", key+":on-copy", pos(c, mutation), "Postings.Reverse mutates its receiver: the original transaction's postings would be rewritten")
+	} else {
+		c.Pass("FLOW/postings-reverse", key+":on-copy", pos(c, d.Decl), "no element of the receiver (or of an alias of it) is written")
+	}
+	sideMsg := "Postings.Reverse does not swap source and destination of every posting"
+	switch {
+	case badSide != nil:
+		c.Fail("FLOW/postings-reverse", key+":swaps-sides", pos(c, badSide), sideMsg+" (a Source/Destination write that is not a swap)")
+	case swaps >= 2:
+		k := loopKind(swapNodes[0])
+		switch k {
+		case "all":
+			c.Pass("FLOW/postings-reverse", key+":swaps-sides", pos(c, d.Decl), "every element: Source <-> Destination")
+		case "half":
+			c.Fail("FLOW/postings-reverse", key+":swaps-sides", pos(c, swapNodes[0]), sideMsg+" (the swap runs over half of the postings)")
+		default:
+			c.Unrecognised("FLOW/postings-reverse", key+":swaps-sides", pos(c, swapNodes[0]), "the loop around the side swap is not one the rule reads")
+		}
+	case sideRefs == 0 && !helperCall:
+		c.Fail("FLOW/postings-reverse", key+":swaps-sides", pos(c, d.Decl), sideMsg+" (Source/Destination are never touched)")
+	default:
+		c.Unrecognised("FLOW/postings-reverse", key+":swaps-sides", pos(c, d.Decl), "no Source<->Destination swap in a shape the rule reads")
+	}
+	orderMsg := "Postings.Reverse does not reverse the order of the postings"
+	switch {
+	case orderSwap != nil:
+		switch loopKind(orderSwap) {
+		case "half":
+			c.Pass("FLOW/postings-reverse", key+":reverses-order", pos(c, d.Decl), "element order reversed (pairwise swap over half)")
+		case "all":
+			c.Fail("FLOW/postings-reverse", key+":reverses-order", pos(c, orderSwap), orderMsg+" (the pairwise swap runs over all indexes and undoes itself)")
+		default:
+			c.Unrecognised("FLOW/postings-reverse", key+":reverses-order", pos(c, orderSwap), "loop around the element swap not read")
+		}
+	case len(mirrored) > 0:
+		if loopKind(mirrored[0]) == "all" {
+			c.Pass("FLOW/postings-reverse", key+":reverses-order", pos(c, d.Decl), "element order reversed (mirrored index write over all elements)")
+		} else {
+			c.Unrecognised("FLOW/postings-reverse", key+":reverses-order", pos(c, mirrored[0]), "loop around the mirrored write not read")
+		}
+	case libReverse:
+		c.Pass("FLOW/postings-reverse", key+":reverses-order", pos(c, d.Decl), "slices.Reverse")
+	case !hasSub && !hasDec && !helperCall:
+		c.Fail("FLOW/postings-reverse", key+":reverses-order", pos(c, d.Decl), orderMsg+" (no index arithmetic, descending loop or reverse call)")
+	default:
+		c.Unrecognised("FLOW/postings-reverse", key+":reverses-order", pos(c, d.Decl), "order reversal not in a shape the rule reads")
+	}
 	// Transaction.Reverse uses it
 	if t := fn(c, pkgCore, "Transaction", "Reverse"); t != nil {
 		uses := false
@@ -642,48 +855,76 @@ func ruleRevertBalanceCheck(c *core.Ctx) {
 	info := d.Pkg.TypesInfo
 	key := declKey(d)
 	flow := astx.NewFlow(info, d.Decl.Body)
+	scope := fnScope(c, d, 1)
+	envs := scopeEnvs(c, d)
+	root := envs[0]
 	gb := callsTo(info, d.Decl.Body, named("GetBalances"))
 	com := callsTo(info, d.Decl.Body, named("CommitTransaction"))
 	rev := callsTo(info, d.Decl.Body, named("RevertTransaction"))
+	if len(gb) == 0 && len(scopeCalls(scope, named("GetBalances"))) == 0 {
+		c.Fail("DOM/revert-balance-check", key+":calls", pos(c, d.Decl), "revertTransaction no longer reads the balances of the accounts the revert debits")
+		return
+	}
 	if len(gb) != 1 || len(com) != 1 || len(rev) != 1 {
-		c.Fail("DOM/revert-balance-check", key+":calls", pos(c, d.Decl), "expected one RevertTransaction, one GetBalances and one CommitTransaction call")
+		c.Unrecognised("DOM/revert-balance-check", key+":calls", pos(c, d.Decl), "expected one RevertTransaction, one GetBalances and one CommitTransaction call in revertTransaction itself")
 		return
 	}
 	c.Check(flow.Dominates(rev[0], gb[0]) && flow.Dominates(gb[0], com[0]), "DOM/revert-balance-check", key+":order", pos(c, gb[0]), "RevertTransaction -> GetBalances -> CommitTransaction", "balances are not read (and locked) between marking the original reverted and committing the reverse")
 	// query = originalTransaction.InvolvedDestinations(), unmodified
-	arg := ""
-	if len(gb[0].Args) == 2 {
-		arg = astx.ExprString(gb[0].Args[1])
+	orig := ""
+	if objs := resultObjs(info, d.Decl.Body, rev[0]); len(objs) > 0 && objs[0] != nil {
+		for id, o := range info.Defs {
+			if o == objs[0] {
+				orig = root.origin(id)
+			}
+		}
+		for id, o := range info.Uses {
+			if orig == "" && o == objs[0] {
+				orig = root.origin(id)
+			}
+		}
 	}
-	fromInvolved := false
-	mutated := false
-	ast.Inspect(d.Decl.Body, func(n ast.Node) bool {
-		switch x := n.(type) {
-		case *ast.AssignStmt:
-			if len(x.Lhs) == 1 && astx.ExprString(x.Lhs[0]) == arg && len(x.Rhs) == 1 {
-				if call, ok := x.Rhs[0].(*ast.CallExpr); ok {
-					if f := astx.Callee(info, call); f != nil && f.Name() == "InvolvedDestinations" && astx.SelectorPath(recvExpr(call)) == "originalTransaction" {
-						fromInvolved = true
+	if len(gb[0].Args) == 2 && orig != "" {
+		q := root.origin(gb[0].Args[1])
+		var argObj types.Object
+		if id, ok := ast.Unparen(gb[0].Args[1]).(*ast.Ident); ok {
+			argObj = info.ObjectOf(id)
+		}
+		mutated := false
+		ast.Inspect(d.Decl.Body, func(n ast.Node) bool {
+			switch x := n.(type) {
+			case *ast.AssignStmt:
+				for _, l := range x.Lhs {
+					if ie, ok := l.(*ast.IndexExpr); ok && argObj != nil && usesObj(info, ie.X, argObj) {
+						mutated = true
 					}
 				}
-			}
-			for _, l := range x.Lhs {
-				if ie, ok := l.(*ast.IndexExpr); ok && astx.ExprString(ie.X) == arg {
+			case *ast.CallExpr:
+				if id, ok := x.Fun.(*ast.Ident); ok && (id.Name == "delete" || id.Name == "clear") && len(x.Args) >= 1 && argObj != nil && usesObj(info, x.Args[0], argObj) {
 					mutated = true
 				}
 			}
-		case *ast.CallExpr:
-			if id, ok := x.Fun.(*ast.Ident); ok && (id.Name == "delete" || id.Name == "clear") && len(x.Args) >= 1 && astx.ExprString(x.Args[0]) == arg {
-				mutated = true
-			}
+			return true
+		})
+		switch {
+		case mutated:
+			c.Fail("DOM/revert-balance-check", key+":balance-query", pos(c, gb[0]), "the balance query built from the original transaction's destinations is modified before it is run")
+		case strings.HasPrefix(q, "?"):
+			c.Unrecognised("DOM/revert-balance-check", key+":balance-query", pos(c, gb[0]), "balance query not read: "+q)
+		default:
+			c.Check(q == orig+".InvolvedDestinations()", "DOM/revert-balance-check", key+":balance-query", pos(c, gb[0]), "GetBalances(original.InvolvedDestinations())", "the balances checked are not exactly those of the original transaction's destinations (the accounts the revert debits); query is "+q)
 		}
-		return true
-	})
-	c.Check(fromInvolved && !mutated, "DOM/revert-balance-check", key+":balance-query", pos(c, gb[0]), "GetBalances(original.InvolvedDestinations())", "the balances checked are not exactly those of the original transaction's destinations (the accounts the revert debits)")
+	} else {
+		c.Unrecognised("DOM/revert-balance-check", key+":balance-query", pos(c, gb[0]), "GetBalances arguments / original transaction not identified")
+	}
 	// FLOW
-	effs := amountEffects(info, d.Decl.Body)
+	effs := amountEffectsScope(scope)
 	got := effectSigs(effs)
-	c.Check(strings.Join(got, " ") == "(balance,+,Destination) (balance,-,Source)", "FLOW/revert-balances", key+":effects", pos(c, d.Decl), strings.Join(got, " "), fmt.Sprintf("the simulated balances change by %v, expected (balance,-,Source) (balance,+,Destination) over the reverse's postings", got))
+	if len(effs) == 0 && len(scope) > 1 {
+		c.Unrecognised("FLOW/revert-balances", key+":effects", pos(c, d.Decl), "no balance arithmetic found in revertTransaction or its direct helpers")
+	} else {
+		c.Check(strings.Join(got, " ") == "(balance,+,Destination) (balance,-,Source)", "FLOW/revert-balances", key+":effects", pos(c, d.Decl), strings.Join(got, " "), fmt.Sprintf("the simulated balances change by %v, expected (balance,-,Source) (balance,+,Destination) over the reverse's postings", got))
+	}
 	for _, e := range effs {
 		// the destination side is legitimately conditional on the account being tracked; what
 		// must not happen is one side being the alternative of the other
@@ -691,56 +932,83 @@ func ruleRevertBalanceCheck(c *core.Ctx) {
 			c.Fail("FLOW/revert-balances", key+":independent:"+e.Sig(), posOf(c, e.Pos), "the "+e.Role+" side of the simulated balance change is applied only when the other side's test failed")
 		}
 	}
-	// the insufficient-funds return
-	var negIf *ast.IfStmt
-	ast.Inspect(d.Decl.Body, func(n ast.Node) bool {
-		if is, ok := n.(*ast.IfStmt); ok && len(callsTo(info, is.Body, named("NewErrInsufficientFund"))) > 0 && negIf == nil {
-			if _, nested := is.Body.List[0].(*ast.ReturnStmt); nested {
-				negIf = is
-			}
-		}
-		return true
-	})
-	if negIf == nil {
+	// the insufficient-funds refusal
+	rejects := scopeCalls(scope, named("NewErrInsufficientFund"))
+	if len(rejects) == 0 {
 		c.Fail("DOM/revert-balance-check", key+":refusal", pos(c, d.Decl), "no branch returns insufficient funds for a negative balance")
 		return
 	}
-	// condition: Cmp(0) < 0 && account != "world" — exactly these two conjuncts
-	var cj []string
-	var split func(e ast.Expr)
-	split = func(e ast.Expr) {
-		e = ast.Unparen(e)
-		if be, ok := e.(*ast.BinaryExpr); ok && be.Op == token.LAND {
-			split(be.X)
-			split(be.Y)
-			return
-		}
-		cj = append(cj, types.ExprString(e))
+	var revertedFlag types.Object
+	if objs := resultObjs(info, d.Decl.Body, rev[0]); len(objs) > 1 {
+		revertedFlag = objs[1]
 	}
-	split(negIf.Cond)
-	okCond := len(cj) == 2
-	hasNeg, hasWorld := false, false
-	for _, s := range cj {
-		if strings.Contains(s, ".Cmp(") && strings.HasSuffix(s, "< 0") {
-			hasNeg = true
+	for i, sc := range rejects {
+		rkey := fmt.Sprintf("%s:refusal#%d", key, i)
+		fs, complete := scopeFacts(d, sc)
+		hasNeg, hasWorld, forceNeg := false, false, false
+		var others []string
+		for _, ft := range fs {
+			txt := nospace(types.ExprString(ft.Cond))
+			be, isBin := ft.Cond.(*ast.BinaryExpr)
+			switch {
+			case isErrNilTest(info, ft.Cond):
+			case revertedFlag != nil && usesObj(info, ft.Cond, revertedFlag):
+			case strings.HasSuffix(astx.SelectorPath(ft.Cond), ".Force") || astx.SelectorPath(ft.Cond) == "Force":
+				if ft.Positive {
+					others = append(others, "+"+txt)
+				} else {
+					forceNeg = true
+				}
+			case isBin && strings.Contains(txt, ".Cmp(") && isZeroConst(info, be.Y):
+				if (be.Op == token.LSS && ft.Positive) || (be.Op == token.GEQ && !ft.Positive) {
+					hasNeg = true
+				} else {
+					others = append(others, fmt.Sprintf("%v:%s", ft.Positive, txt))
+				}
+			case isBin && (be.Op == token.EQL || be.Op == token.NEQ) && (isWorldConst(info, be.X) || isWorldConst(info, be.Y)):
+				if (be.Op == token.NEQ && ft.Positive) || (be.Op == token.EQL && !ft.Positive) {
+					hasWorld = true
+				} else {
+					others = append(others, fmt.Sprintf("%v:%s", ft.Positive, txt))
+				}
+			case isBin && be.Op == token.EQL && isErrNilTestLoose(info, be):
+			default:
+				if _, isIdent := ft.Cond.(*ast.Ident); isIdent && ft.Positive && txt == "ok" {
+					others = append(others, "+ok")
+				} else {
+					others = append(others, fmt.Sprintf("%v:%s", ft.Positive, txt))
+				}
+			}
 		}
-		if s == `account != "world"` {
-			hasWorld = true
+		opaque := !complete || factsOpaque(c, info, fs)
+		switch {
+		case len(others) > 0 && !opaque:
+			c.Fail("DOM/revert-balance-check", rkey+":refusal-condition", pos(c, sc.Call), fmt.Sprintf("the refusal is also guarded by %v; it must be exactly `balance < 0 && account != \"world\"`, skipped only by Force (world is the only account allowed to go negative)", others))
+		case hasNeg && hasWorld && len(others) == 0:
+			c.Pass("DOM/revert-balance-check", rkey+":refusal-condition", pos(c, sc.Call), "negative && account != world")
+			c.Check(forceNeg, "DOM/revert-balance-check", rkey+":only-force-skips", pos(c, sc.Call), "skipped only when Force", "the balance check is not under the negative side of Force")
+		case opaque:
+			c.Unrecognised("DOM/revert-balance-check", rkey+":refusal-condition", pos(c, sc.Call), "the refusal is guarded by conditions the rule does not read")
+		default:
+			c.Fail("DOM/revert-balance-check", rkey+":refusal-condition", pos(c, sc.Call), fmt.Sprintf("the refusal condition must be exactly `balance < 0 && account != \"world\"` (negative-test=%v world-exemption=%v)", hasNeg, hasWorld))
 		}
+		// the refusal is returned, before the reverse is committed
+		returned := false
+		ast.Inspect(sc.D.Decl.Body, func(n ast.Node) bool {
+			if r, ok := n.(*ast.ReturnStmt); ok && r.Pos() <= sc.Call.Pos() && sc.Call.End() <= r.End() {
+				returned = true
+			}
+			return true
+		})
+		p := sc.Call.Pos()
+		if sc.D != d {
+			p = token.NoPos
+			for _, site := range callsTo(info, d.Decl.Body, func(f *types.Func) bool { return f == sc.D.Obj || f.Origin() == sc.D.Obj }) {
+				p = site.Pos()
+			}
+		}
+		c.Shape(p != token.NoPos, returned && p < com[0].Pos(), "DOM/revert-balance-check", rkey+":refusal-before-commit", pos(c, sc.Call), "returns before CommitTransaction", "the insufficient-funds branch does not leave the function before the reverse is committed")
 	}
-	c.Check(okCond && hasNeg && hasWorld, "DOM/revert-balance-check", key+":refusal-condition", pos(c, negIf), "negative && account != world", fmt.Sprintf("the refusal condition is %v; it must be exactly `balance < 0 && account != \"world\"` (world is the only account allowed to go negative)", cj))
-	// guarded only by !Force and iterating all balances
-	facts := astx.FactsAt(info, d.Decl.Body, negIf.Pos())
-	var gs []string
-	for _, f := range facts {
-		s := types.ExprString(f.Cond)
-		if strings.HasPrefix(s, "err ") || strings.Contains(s, "hasBeenReverted") {
-			continue
-		}
-		gs = append(gs, fmt.Sprintf("%v:%s", f.Positive, s))
-	}
-	c.Check(len(gs) == 1 && gs[0] == "false:parameters.Input.Force", "DOM/revert-balance-check", key+":only-force-skips", pos(c, negIf), "skipped only when Force", fmt.Sprintf("the balance check is guarded by %v; only Force may skip it", gs))
-	c.Check(astx.Terminates(info, negIf.Body.List) && negIf.Pos() < com[0].Pos(), "DOM/revert-balance-check", key+":refusal-before-commit", pos(c, negIf), "returns before CommitTransaction", "the insufficient-funds branch does not leave the function before the reverse is committed")
 }
 
 func ruleWithdrawAll(c *core.Ctx) {
@@ -756,7 +1024,7 @@ func ruleWithdrawAll(c *core.Ctx) {
 	ast.Inspect(d.Decl.Body, func(n ast.Node) bool {
 		if as, ok := n.(*ast.AssignStmt); ok && as.Tok == token.DEFINE && len(as.Rhs) == 1 {
 			if call, ok := as.Rhs[0].(*ast.CallExpr); ok {
-				if f := astx.Callee(info, call); f != nil && f.Name() == "Add" && astx.SelectorPath(recvExpr(call)) == "balance" && len(call.Args) == 1 && astx.SelectorPath(call.Args[0]) == "overdraft" {
+				if f := astx.Callee(info, call); f != nil && f.Name() == "Add" && len(call.Args) == 1 && canonPath(d, call.Args[0]) == "p2" && isBalanceLookup(info, d.Decl.Body, recvExpr(call)) {
 					if id, ok := as.Lhs[0].(*ast.Ident); ok {
 						sumVar = info.Defs[id]
 					}
@@ -799,4 +1067,29 @@ func ruleWithdrawAll(c *core.Ctx) {
 		return true
 	})
 	c.Check(okAssign == 1 && badAssign == 0, "DOM/withdraw-all", key+":taken-only-when-positive", pos(c, d.Decl), "amountTaken = balance+overdraft only if that is > 0", "withdrawAll may take an amount that is not bounded by max(0, balance + overdraft)")
+}
+
+// isBalanceLookup: e is a local obtained from a (comma-ok) map lookup, i.e. the tracked balance.
+func isBalanceLookup(info *types.Info, body *ast.BlockStmt, e ast.Expr) bool {
+	id, ok := ast.Unparen(e).(*ast.Ident)
+	if !ok {
+		return false
+	}
+	obj := info.ObjectOf(id)
+	found := false
+	ast.Inspect(body, func(n ast.Node) bool {
+		as, ok := n.(*ast.AssignStmt)
+		if !ok || len(as.Rhs) != 1 || len(as.Lhs) == 0 {
+			return true
+		}
+		l, ok := as.Lhs[0].(*ast.Ident)
+		if !ok || info.ObjectOf(l) != obj {
+			return true
+		}
+		if _, isIx := ast.Unparen(as.Rhs[0]).(*ast.IndexExpr); isIx {
+			found = true
+		}
+		return true
+	})
+	return found
 }
